@@ -15,9 +15,9 @@
    case_variant lower upper a c := lower a = lower c /\ upper a = upper c  (what is_case_variant computes).
    toks_ok n toks is the C02 token invariant: spans in bounds of a text of length n, ordered,
    disjoint, word-like tokens non-empty.  History/C18History.v: the code before 41fa706 (FC18a/FC18b). *)
-Require Import Base Overlap Tables_lexer Lexer Condense LexerProofs C18LexStable.
+Require Import Base Overlap Tables_lexer Lexer Condense LexerProofs C18LexStable C18PassesIC C18LexDots.
 Require Import Base Tables_titlecase TitleCase TitleCaseProofs C18History C18Str C18StrProofs.
-From Coq Require Import Sorting.Sorted.
+From Coq Require Import Sorting.Sorted Lia.
 
 (* no panic: for tokens satisfying the C02 invariant, provided the canonical spelling the
    dictionary returns for a word is at least as long as the word (H_canon_len; the harness
@@ -475,6 +475,145 @@ Check C18_str_idempotent_refuted : exists u lower upper is_lowercase dict_canon 
     document_tokens u dict_meta out <> document_tokens u dict_meta src.
 Print Assumptions C18_str_idempotent_refuted.
 
+(* ================= phase 4: the passes for every text, the lexer with periods ================= *)
+(* THE PASSES of Document::parse ARE ASCII-CASE-BLIND (phase 4), for ANY token list t0 (no invariant) and any two texts
+   that agree position by position up to the ASCII-letter key (ickey c = the lower-case letter of an ASCII letter, 0
+   for any other character; Ric a c := ickey a = ickey c): same result of all passes (condense_spaces ... match_quotes,
+   the look-up loop), panics included.  The passes read the text only through NumberSuffix::from_chars (every casing is
+   in its table: proved against the regenerated table), eq_ignore_ascii_case against etc/vs/et/al, and lengths *)
+Theorem C18_passes_case_blind : forall (src src' : text), Forall2 Ric src src' -> forall t0, document_passes src' t0 = document_passes src t0.
+Proof. exact document_passes_ic. Qed.
+Check C18_passes_case_blind : forall (src src' : text), Forall2 Ric src src' -> forall t0, document_passes src' t0 = document_passes src t0.
+Print Assumptions C18_passes_case_blind.
+
+(* H_relex REDUCED TO THE LEXER, for EVERY text: when PlainEnglish::parse alone (no pass, no dictionary) cuts the
+   title-cased text like the text, the document tokens — all passes, Word metadata — are the same.  New law (monitored
+   over all code points): ascii_case_faithful — case variants have the same ASCII-letter key *)
+Theorem C18_str_relex_of_lexer : forall u lower upper is_lowercase dict_canon dict_meta (src out : text),
+  lower_ascii_law lower -> upper_ascii_law upper -> apostrophes_caseless lower upper ->
+  ascii_case_faithful lower upper -> dict_meta_case_insensitive lower upper dict_meta ->
+  title_case_str u lower upper is_lowercase dict_canon dict_meta src = Ok out ->
+  plain_parse u out = plain_parse u src ->
+  document_tokens u dict_meta out = document_tokens u dict_meta src.
+Proof. exact str_relex_of_lexer. Qed.
+Check C18_str_relex_of_lexer : forall u lower upper is_lowercase dict_canon dict_meta (src out : text),
+  lower_ascii_law lower -> upper_ascii_law upper -> apostrophes_caseless lower upper ->
+  ascii_case_faithful lower upper -> dict_meta_case_insensitive lower upper dict_meta ->
+  title_case_str u lower upper is_lowercase dict_canon dict_meta src = Ok out ->
+  plain_parse u out = plain_parse u src ->
+  document_tokens u dict_meta out = document_tokens u dict_meta src.
+Print Assumptions C18_str_relex_of_lexer.
+
+(* IDEMPOTENCE for EVERY text from the residue H_relex_lex about the lexer alone (weaker than H_relex of
+   C18_str_idempotent_partial; `_partial`: H_relex_lex is false for the FC18c texts, see C18_str_idempotent_refuted) *)
+Theorem C18_str_idempotent_lexer_partial : forall u lower upper is_lowercase dict_canon dict_meta (src out : text),
+  lower_ascii_law lower -> upper_ascii_law upper -> apostrophes_caseless lower upper ->
+  lowercase_fixed lower is_lowercase -> apostrophes_lower_fixed lower -> ascii_case_faithful lower upper ->
+  dict_case_insensitive lower upper is_lowercase dict_canon dict_meta ->
+  dict_meta_case_insensitive lower upper dict_meta ->
+  title_case_str u lower upper is_lowercase dict_canon dict_meta src = Ok out ->
+  plain_parse u out = plain_parse u src ->
+  title_case_str u lower upper is_lowercase dict_canon dict_meta out = Ok out.
+Proof. exact str_idempotent_lexer_partial. Qed.
+Check C18_str_idempotent_lexer_partial : forall u lower upper is_lowercase dict_canon dict_meta (src out : text),
+  lower_ascii_law lower -> upper_ascii_law upper -> apostrophes_caseless lower upper ->
+  lowercase_fixed lower is_lowercase -> apostrophes_lower_fixed lower -> ascii_case_faithful lower upper ->
+  dict_case_insensitive lower upper is_lowercase dict_canon dict_meta ->
+  dict_meta_case_insensitive lower upper dict_meta ->
+  title_case_str u lower upper is_lowercase dict_canon dict_meta src = Ok out ->
+  plain_parse u out = plain_parse u src ->
+  title_case_str u lower upper is_lowercase dict_canon dict_meta out = Ok out.
+Print Assumptions C18_str_idempotent_lexer_partial.
+
+(* THE LEXER HALF WITH PERIODS (phase 4), any Unicode tables u.  Dotted u s: every character is a word character other
+   than an ASCII digit, a blank, a punctuation / quote character other than @ : [ ' and the curly apostrophes — the
+   PERIOD IS ALLOWED, so hostnames, initialisms, ellipses, Latin abbreviations are inside —, or a character no
+   sub-lexer claims; no ASCII digit; and NO occurrence of the FC18c pattern  [A-Za-z] [sS] [.-] [A-Za-z0-9.-]
+   (ctx_ok).  Rl u a c: a = c, or both word characters with the same ASCII-letter key (an ASCII letter may only change
+   case), or both unclaimed characters.  Then PlainEnglish::parse and Document::new_plain_english give the same
+   tokens.  The excluded pattern is exactly what lex_plural_digit + lex_hostname_token make case-sensitive (FC18c) *)
+Theorem C18_lex_dots_stable : forall u (s s' : text),
+  Forall2 (Rl u) s s' -> Dotted u s -> Dotted u s' ->
+  plain_parse u s' = plain_parse u s /\ document_plain u s' = document_plain u s.
+Proof. exact lex_dots_stable. Qed.
+Check C18_lex_dots_stable : forall u (s s' : text),
+  Forall2 (Rl u) s s' -> Dotted u s -> Dotted u s' ->
+  plain_parse u s' = plain_parse u s /\ document_plain u s' = document_plain u s.
+Print Assumptions C18_lex_dots_stable.
+
+(* H_relex PROVED for dotted, case-stable texts (dotted_stable_text: Dotted + every character case-stable in the sense
+   of the class); the output is dotted again *)
+Theorem C18_str_relex_dotted : forall u lower upper is_lowercase dict_canon dict_meta (src out : text),
+  lower_ascii_law lower -> upper_ascii_law upper -> apostrophes_caseless lower upper ->
+  ascii_case_faithful lower upper -> dict_meta_case_insensitive lower upper dict_meta ->
+  dotted_stable_text u lower upper src ->
+  title_case_str u lower upper is_lowercase dict_canon dict_meta src = Ok out ->
+  document_tokens u dict_meta out = document_tokens u dict_meta src /\ dotted_text u out = true.
+Proof. exact str_relex_dotted. Qed.
+Check C18_str_relex_dotted : forall u lower upper is_lowercase dict_canon dict_meta (src out : text),
+  lower_ascii_law lower -> upper_ascii_law upper -> apostrophes_caseless lower upper ->
+  ascii_case_faithful lower upper -> dict_meta_case_insensitive lower upper dict_meta ->
+  dotted_stable_text u lower upper src ->
+  title_case_str u lower upper is_lowercase dict_canon dict_meta src = Ok out ->
+  document_tokens u dict_meta out = document_tokens u dict_meta src /\ dotted_text u out = true.
+Print Assumptions C18_str_relex_dotted.
+
+(* IDEMPOTENCE of make_title_case_str on dotted texts — no premise about the lexer or the tokens *)
+Theorem C18_str_idempotent_dotted : forall u lower upper is_lowercase dict_canon dict_meta (src out : text),
+  lower_ascii_law lower -> upper_ascii_law upper -> apostrophes_caseless lower upper ->
+  lowercase_fixed lower is_lowercase -> apostrophes_lower_fixed lower -> ascii_case_faithful lower upper ->
+  dict_case_insensitive lower upper is_lowercase dict_canon dict_meta ->
+  dict_meta_case_insensitive lower upper dict_meta ->
+  dotted_stable_text u lower upper src ->
+  title_case_str u lower upper is_lowercase dict_canon dict_meta src = Ok out ->
+  title_case_str u lower upper is_lowercase dict_canon dict_meta out = Ok out.
+Proof. exact str_idempotent_dotted. Qed.
+Check C18_str_idempotent_dotted : forall u lower upper is_lowercase dict_canon dict_meta (src out : text),
+  lower_ascii_law lower -> upper_ascii_law upper -> apostrophes_caseless lower upper ->
+  lowercase_fixed lower is_lowercase -> apostrophes_lower_fixed lower -> ascii_case_faithful lower upper ->
+  dict_case_insensitive lower upper is_lowercase dict_canon dict_meta ->
+  dict_meta_case_insensitive lower upper dict_meta ->
+  dotted_stable_text u lower upper src ->
+  title_case_str u lower upper is_lowercase dict_canon dict_meta src = Ok out ->
+  title_case_str u lower upper is_lowercase dict_canon dict_meta out = Ok out.
+Print Assumptions C18_str_idempotent_dotted.
+
+(* the WHOLE property text, about strings, for a dotted text *)
+Theorem C18_str_title_case_dotted : forall u lower upper is_lowercase dict_canon dict_meta (src : text),
+  lower_ascii_law lower -> upper_ascii_law upper -> apostrophes_caseless lower upper ->
+  ascii_variant_closed lower upper -> lowercase_fixed lower is_lowercase -> apostrophes_lower_fixed lower ->
+  ascii_case_faithful lower upper ->
+  dict_case_insensitive lower upper is_lowercase dict_canon dict_meta ->
+  (forall w cc, dict_canon w = Some cc -> length w <= length cc) ->
+  dict_meta_case_insensitive lower upper dict_meta ->
+  dotted_stable_text u lower upper src ->
+  exists out,
+    title_case_str u lower upper is_lowercase dict_canon dict_meta src = Ok out /\
+    length out = length src /\
+    (forall k c, nth_error out k = Some c -> exists a, nth_error src k = Some a /\ case_variant lower upper a c) /\
+    (forall toks w0 rest, document_tokens u dict_meta src = Ok toks -> filter tok_word_like toks = w0 :: rest ->
+       exists a c, nth_error src (tstart w0) = Some a /\ nth_error out (tstart w0) = Some c /\
+                   is_ascii_lower c = false /\ (is_ascii_alpha a = true -> is_ascii_upper c = true)) /\
+    title_case_str u lower upper is_lowercase dict_canon dict_meta out = Ok out.
+Proof. exact str_property_dotted. Qed.
+Check C18_str_title_case_dotted : forall u lower upper is_lowercase dict_canon dict_meta (src : text),
+  lower_ascii_law lower -> upper_ascii_law upper -> apostrophes_caseless lower upper ->
+  ascii_variant_closed lower upper -> lowercase_fixed lower is_lowercase -> apostrophes_lower_fixed lower ->
+  ascii_case_faithful lower upper ->
+  dict_case_insensitive lower upper is_lowercase dict_canon dict_meta ->
+  (forall w cc, dict_canon w = Some cc -> length w <= length cc) ->
+  dict_meta_case_insensitive lower upper dict_meta ->
+  dotted_stable_text u lower upper src ->
+  exists out,
+    title_case_str u lower upper is_lowercase dict_canon dict_meta src = Ok out /\
+    length out = length src /\
+    (forall k c, nth_error out k = Some c -> exists a, nth_error src k = Some a /\ case_variant lower upper a c) /\
+    (forall toks w0 rest, document_tokens u dict_meta src = Ok toks -> filter tok_word_like toks = w0 :: rest ->
+       exists a c, nth_error src (tstart w0) = Some a /\ nth_error out (tstart w0) = Some c /\
+                   is_ascii_lower c = false /\ (is_ascii_alpha a = true -> is_ascii_upper c = true)) /\
+    title_case_str u lower upper is_lowercase dict_canon dict_meta out = Ok out.
+Print Assumptions C18_str_title_case_dotted.
+
 (* ---------- non-vacuity ---------- *)
 (* "the wordpress of a" -> "The WordPress of A" over an example dictionary that finds words by their
    folded form: EVERY hypothesis of every theorem above holds on it (the seven laws for all
@@ -593,3 +732,65 @@ Example C18_relex_unstable_witness :
   plain_text ascii_uni wit_src = false /\
   title_case_str ascii_uni ex_lower ex_upper ex_islower wit_canon wit_meta wit_out = Ok wit_out.
 Proof. exact relex_unstable_witness. Qed.
+
+(* ---------- non-vacuity, phase 4 ---------- *)
+(* the passes at work on a text and its upper-case twin: "1st et al." / "1ST ET AL." — the token list of the first
+   text, run through the passes with either text: same result, and the passes did condense something
+   (number suffix, Latin abbreviation) *)
+Example C18_passes_case_blind_nonvacuous :
+  let s := [49; 115; 116; 32; 101; 116; 32; 97; 108; 46]%N in
+  let s' := [49; 83; 84; 32; 69; 84; 32; 65; 76; 46]%N in
+  forallb (fun p => (ickey (fst p) =? ickey (snd p))%N) (combine s s') = true /\ s' <> s /\
+  exists t0 t9, plain_parse ascii_uni s = Ok t0 /\ document_passes s t0 = Ok t9 /\ document_passes s' t0 = Ok t9 /\
+                length t9 < length t0.
+Proof.
+  cbv zeta. split; [vm_compute; reflexivity|]. split; [discriminate|].
+  eexists. eexists. split; [vm_compute; reflexivity|]. split; [vm_compute; reflexivity|].
+  split; [vm_compute; reflexivity|]. vm_compute. lia.
+Qed.
+
+(* the new law and the closure of the dotted class hold for the ASCII restriction + example dictionary (all
+   characters); "the wordpress. a.b is. etc." is dotted and not plain, has a Hostname token, its title case differs
+   from it, is a fixed point, yields the same document tokens and is dotted again *)
+Example C18_dotted_nonvacuous :
+  ascii_case_faithful ex_lower ex_upper /\ dotted_case_closed ascii_uni ex_lower ex_upper /\
+  dotted_stable_text ascii_uni ex_lower ex_upper dot_src /\
+  exists out,
+    plain_text ascii_uni dot_src = false /\ dotted_text ascii_uni dot_src = true /\
+    title_case_str ascii_uni ex_lower ex_upper ex_islower ex_canon ex_meta dot_src = Ok out /\ out <> dot_src /\
+    title_case_str ascii_uni ex_lower ex_upper ex_islower ex_canon ex_meta out = Ok out /\
+    document_tokens ascii_uni ex_meta out = document_tokens ascii_uni ex_meta dot_src /\
+    dotted_text ascii_uni out = true /\
+    existsb (fun t => match tkind_ t with KHostname => true | _ => false end)
+            (match document_tokens ascii_uni ex_meta dot_src with Ok ts => ts | Panic _ => [] end) = true.
+Proof.
+  split; [exact ex_ascii_case_faithful|]. split; [exact ex_dotted_case_closed|]. split; [exact ex_dotted_stable|].
+  exact ex_dotted_run.
+Qed.
+
+(* two dotted texts related by Rl: "as. b.c" and "AS. B.c" lex alike (a sentence end after `as`, a hostname) *)
+Example C18_lex_dots_nonvacuous :
+  let s := [97; 115; 46; 32; 98; 46; 99]%N in let s' := [65; 83; 46; 32; 66; 46; 99]%N in
+  dotted_text ascii_uni s = true /\ dotted_text ascii_uni s' = true /\
+  forallb (fun p => (fst p =? snd p)%N || (wch ascii_uni (fst p) && wch ascii_uni (snd p) && (ickey (fst p) =? ickey (snd p))%N))
+          (combine s s') = true /\
+  plain_parse ascii_uni s' = plain_parse ascii_uni s /\ s' <> s /\
+  existsb (fun t => match Lexer.tkind_of t with Lexer.KHostname => true | _ => false end)
+          (match plain_parse ascii_uni s with Ok ts => ts | Panic _ => [] end) = true.
+Proof. cbv zeta. repeat split; try (vm_compute; reflexivity). discriminate. Qed.
+
+(* THE EXCLUDED PATTERN IS THE KNOWN FINDING: both FC18c witnesses (C18_str_idempotent_refuted: ss.a'b,
+   C18_relex_unstable_witness: ss.s) carry it (ctx_ok = false) — ss.s consists of characters of the class only,
+   so the pattern alone excludes it *)
+Example C18_fc18c_outside_classes :
+  dotted_text ascii_uni ref_src = false /\ ctx_ok ref_src = false /\ forallb (char2 ascii_uni) wit_src = true /\
+  dotted_text ascii_uni wit_src = false /\ ctx_ok wit_src = false.
+Proof. exact fc18c_outside. Qed.
+
+(* case_stable is needed (U+A7D2..U+A7D5 with the present crates): see C18StrProofs.case_stable_needed *)
+Example C18_case_stable_needed :
+  plain_text toy_uni [42963%N] = true /\ plain_text toy_uni [42962%N] = true /\
+  wchar toy_uni 42963 = true /\ ochar toy_uni 42962 = true /\
+  document_plain toy_uni [42963%N] = Ok [Lexer.mktok (mkspan 0 1) Lexer.KWord] /\
+  document_plain toy_uni [42962%N] = Ok [Lexer.mktok (mkspan 0 1) Lexer.KUnlintable].
+Proof. exact case_stable_needed. Qed.
